@@ -152,6 +152,17 @@ theorem validity_layer_roundtrip_real (a b : List Meaning) (hD : ndM a + 1 ≤ T
     list) and 4 (null struct above the list) at rep 1 -/
 example : (0 :: levelsToRep [.nullableItem, .nullableAndEmptyableList, .nullableItem] 0) = [0, 0, 1, 1, 1] := by decide
 
+/-- **`max_visible_level`**: `SerializedRepDefs::new` sets it to the number of def levels of the layers below the
+    first list layer — the levels whose entries still carry a value slot, which is what `RepDefSlicer::slice_next`
+    counts to hand out "as many levels as the chunk has values" — and to `None` when there is no list.  (That the
+    def levels `<=` this bound are exactly the leaf items is checked by the slicer oracle of the run, not proved.) -/
+theorem max_visible_level_meaning (ms : List Meaning) :
+    maxVisibleLevel ms =
+      if ms.any Meaning.isList then some (ndM (ms.takeWhile (fun m => !m.isList))) else none :=
+  maxVisibleLevel_eq ms
+
+example : maxVisibleLevel [.nullableItem, .nullableItem, .nullableAndEmptyableList, .nullableItem] = some 2 := by decide
+
 /-! ## Part 3: control words -/
 
 /-- `ControlWordParser::new(bits_rep, bits_def)` parses the words of `build_control_word_iterator` back to the
